@@ -15,7 +15,7 @@ from worlds import lis_logical as LL, lis_phys as LP
 
 PROPERTY = 'C06'
 LEVEL = 'exploration'
-RUNS = {'quick': 1500, 'thorough': 40000}
+RUNS = {'quick': 16000, 'thorough': 400000}
 RULE = ('scenario = seeded LIS logical model ([reel][tape] file header, tables, DFSR with 1..8 channels of codes 49 50 56 66 68 70 73 77 79, samples and '
         'bursts, direct or indirect X, up/down/time, seeded frames-per-record pattern with short last record, [trailers], 1..2 logical files, physical '
         'layout as C05 incl. TIF and foreign chunking) and an explicit history of <= 10 setFrameSet loads (slice, channel subset, reused channel list); '
